@@ -8,6 +8,13 @@ MALFORMED = ['(', 'a.b.c', '[x', 'x ! y ! z', 'wl_a@5', 'a(b)c', 'x, (', '! [', 
 
 def atom_text(d, g):
     """one alternative (a pattern, never a list at top level)"""
+    if d.chance(0.12):
+        # "twins": atoms of different kind that read alike (a quoted string and a bare word, a type and a label)
+        w = d.choice((g.V.get('str') or []) + (g.V.get('label') or []) + (g.V.get('type') or []) + ['wl_seat', 'wl_shm'])
+        w = str(w)
+        import re as _re
+        if _re.fullmatch(r'[A-Za-z_][A-Za-z0-9_]*', w) and w.lower() not in ('nil', 'inf', 'nan', 'infinity'):
+            return d.choice(['("%s")' % w, '(%s)' % w, '.("%s")' % w, '.(%s)' % w])
     if d.chance(0.2):
         return d.choice(['wl_display', 'wl_registry', '.bind', '.delete_id', '2', '3a', 'wl_*', '.new', '.destroyed', 'A:', 'B:', '(nil)', 'wl_callback.done'])
     p = g.pattern()
@@ -16,61 +23,19 @@ def atom_text(d, g):
     return rm.r_pattern(p, rm.Plain())
 
 
-class Model:
-    """accumulator over atoms: alternatives P, exclusions N, star flag, or a constant"""
-    def __init__(self, matcher, const):
-        self.m = matcher
-        self.const = const          # 'star' | 'bang' | None
-        self.P, self.N, self.star, self.forgotten = [], [], False, []
-
-    def is_star_atom(self, a):
-        return a.strip() == '*' or self.m.parse(a).simplify().always() is True
-
-    def apply(self, alts, excl):
-        if self.const is not None:
-            self.P, self.N, self.star, self.forgotten = [], [], False, []
-            self.const = None
-        if any(self.is_star_atom(e) for e in excl):
-            self.const = 'bang'
-            self.P, self.N, self.star, self.forgotten = [], [], False, []
-            return
-        if any(self.is_star_atom(a) for a in alts):
-            self.forgotten += self.P + [a for a in alts if not self.is_star_atom(a)]
-            self.P = []
-            self.star = True
-        elif alts:
-            self.P = list(alts) + self.P
-            self.star = False
-        elif not self.P and not self.star:
-            self.star = True            # exclusions only, given while nothing restricted the selection
-        self.N = list(excl) + self.N
-        if self.star and not self.N:
-            self.const = 'star'
-
-    def reset_never(self):
-        self.const = 'bang'
-        self.P, self.N, self.star, self.forgotten = [], [], False, []
-
-    def expect(self, parsed, msg):
-        """True/False, or None when the statement leaves it open"""
-        if self.const == 'bang': return False
-        if self.const == 'star': return True
-        if any(parsed[n].matches(msg) for n in self.N): return False
-        if self.star or any(parsed[p].matches(msg) for p in self.P): return True
-        if any(parsed[f].matches(msg) for f in self.forgotten): return None
-        return False
+from ..accmodel import Model      # noqa: E402  (accumulator over atoms: alternatives, exclusions, star flag, constants)
 
 
 class Sequences(Stage):
     name = 'sequences'
 
     def examples(self, tier):
-        return 400 if tier == 'quick' else 14 * 4000
+        return 800 if tier == 'quick' else 14 * 5000
 
     def gen(self, d, tier):
         specs = histgen.history(d, nconn=d.int(1, 2), nmsg=d.int(8, 30), profile=PROFILE)
         g = rm.Gen(d, rm.vocab(specs), 1)
-        which = d.choice(['filter', 'breakpoint'])
+        which = d.choice(['filter', 'breakpoint', 'both', 'both'])
         initial = None
         if d.chance(0.3):
             initial = dict(alts=[atom_text(d, g) for _ in range(d.int(1, 2))], excl=[atom_text(d, g) for _ in range(d.int(0, 1))])
@@ -84,6 +49,27 @@ class Sequences(Stage):
             elif k == 'excl': cmds.append(dict(alts=[], excl=[atom_text(d, g) for _ in range(d.int(1, 2))]))
             elif k == 'star+': cmds.append(dict(alts=['*'] + [atom_text(d, g) for _ in range(d.int(0, 1))], excl=[atom_text(d, g) for _ in range(d.int(0, 1))]))
             else: cmds.append(dict(alts=[atom_text(d, g) for _ in range(d.int(1, 2))], excl=[atom_text(d, g) for _ in range(d.int(1, 2))]))
+        twins = None
+        if d.chance(0.3):
+            # a pair of twins (same spelling, different kind: bare word vs quoted string) accumulated by two consecutive
+            # commands on the same matcher; spelled like a string that occurs in the history when there is one
+            import re as _re
+            ids = [x for x in (g.V.get('str') or []) if _re.fullmatch(r'[A-Za-z_][A-Za-z0-9_]*', x) and x.lower() not in ('nil', 'inf', 'nan', 'infinity')]
+            w = d.choice(ids) if ids else d.choice(['wl_seat', 'wl_shm'])
+            pair = ['(%s)' % w, '("%s")' % w]
+            if d.chance(0.5):
+                pair.reverse()
+            side = d.choice(['alts', 'alts', 'excl'])
+            twins = [dict(alts=[t], excl=[]) if side == 'alts' else dict(alts=[], excl=[t]) for t in pair]
+            if side == 'excl':
+                twins.insert(0, dict(raw='*'))
+            cmds += twins
+        if which == 'both':
+            for c in cmds:
+                c['which'] = d.choice(['filter', 'breakpoint'])
+            if twins:
+                for c in twins:
+                    c['which'] = twins[0]['which']
         return dict(specs=specs, which=which, initial=initial, cmds=cmds)
 
     @staticmethod
@@ -100,33 +86,42 @@ class Sequences(Stage):
         from core.util import no_color
         res = Result()
         res.evals = 0
-        which = case['which']
+        which0 = case['which']
         init = self.text_of(case['initial']) if case['initial'] else None
-        s = session.Session(filter_text=init if which == 'filter' else None, break_text=init if which == 'breakpoint' else None)
+        first = 'filter' if which0 in ('filter', 'both') else 'breakpoint'
+        s = session.Session(filter_text=init if first == 'filter' else None, break_text=init if first == 'breakpoint' else None)
         s.run([['line', wire.render(m, 'new')] for m in case['specs']])
         msgs = s.messages()
-        model = Model(matcher, 'star' if which == 'filter' else 'bang')
+        models = dict(filter=Model(matcher, 'star'), breakpoint=Model(matcher, 'bang'))
         parsed = {}
 
         def learn(atoms):
             for a in atoms:
                 if a not in parsed:
                     parsed[a] = matcher.parse(a).simplify()
+
+        def current(w):
+            return s.ctl.display_matcher if w == 'filter' else s.ctl.stop_matcher
         if case['initial']:
             learn(case['initial']['alts'] + case['initial']['excl'])
-            model.apply(case['initial']['alts'], case['initial']['excl'])
+            models[first].apply(case['initial']['alts'], case['initial']['excl'])
         ok_cmds = 0
         excl_step = alt_step = None
         mixed = False
         for step, c in enumerate(case['cmds']):
+            which = c.get('which', first)
+            other = 'breakpoint' if which == 'filter' else 'filter'
+            model = models[which]
             text = self.text_of(c)
             n_out, n_err = len(s.out.buffer), len(s.err.buffer)
-            cur_before = s.ctl.display_matcher if which == 'filter' else s.ctl.stop_matcher
-            before = [cur_before.matches(m) for m in msgs]
+            before = [current(which).matches(m) for m in msgs]
+            other_before = [current(other).matches(m) for m in msgs]
             s.ctl.process_command(which + ' ' + text)
             out = s.out.buffer[n_out:]
             err = s.err.buffer[n_err:]
-            cur = s.ctl.display_matcher if which == 'filter' else s.ctl.stop_matcher
+            cur = current(which)
+            if [current(other).matches(m) for m in msgs] != other_before:
+                res.bad('command-changes-the-other-matcher', '`%s %s` changed what the %s matcher selects' % (which, text, other))
             if c.get('malformed'):
                 if 'Failed to parse' not in err:
                     res.bad('malformed-not-reported', '%r: err=%r' % (text, err))
@@ -151,28 +146,30 @@ class Sequences(Stage):
                 if c['alts'] and alt_step is None: alt_step = step
             ok_cmds += 1
             sel = 0
-            for m in msgs:
-                exp = model.expect(parsed, m)
-                got = cur.matches(m)
-                res.evals += 1
-                sel += bool(got)
-                if exp is None:
-                    res.count('unspecified-absorbed-alternative')
-                elif exp != got:
-                    hist = [self.text_of(x) for x in case['cmds'][:step + 1]]
-                    res.bad('accumulation:%s' % ('lost-or-over-excluded' if exp else 'selects-excluded-or-unlisted'),
-                            '%s after %r (initial %r): %s selected=%r, accumulated alternatives %r exclusions %r star=%r const=%r' % (
-                                which, hist, init, no_color(str(m)), got, model.P, model.N, model.star, model.const))
-                    break
+            for w in (which, other):
+                for m in msgs:
+                    exp = models[w].expect(parsed, m)
+                    got = current(w).matches(m)
+                    res.evals += 1
+                    if w == which:
+                        sel += bool(got)
+                    if exp is None:
+                        res.count('unspecified-absorbed-alternative')
+                    elif exp != got:
+                        hist = [(x.get('which', first)[0] + ': ' + self.text_of(x)) for x in case['cmds'][:step + 1]]
+                        res.bad('accumulation:%s%s' % ('lost-or-over-excluded' if exp else 'selects-excluded-or-unlisted', '' if w == which else ':other-matcher'),
+                                '%s after %r (initial %s %r): %s selected=%r, accumulated alternatives %r exclusions %r star=%r const=%r' % (
+                                    w, hist, first, init, no_color(str(m)), got, models[w].P, models[w].N, models[w].star, models[w].const))
+                        break
             if 0 < sel < len(msgs):
                 mixed = True
         res.nontrivial = ok_cmds >= 3 and excl_step is not None and alt_step is not None and excl_step != alt_step and mixed
-        res.label(which)
+        res.label(which0)
         if any(c.get('malformed') for c in case['cmds']): res.label('malformed-command')
         if any(c.get('raw') == '*' or '*' in c.get('alts', []) for c in case['cmds']): res.label('star-alternative')
         if any(c.get('raw') == '!' for c in case['cmds']): res.label('bang-reset')
         if case['initial']: res.label('initial-from-option')
-        res.sample = dict(which=which, initial=init, commands=[self.text_of(c) for c in case['cmds']], messages=len(msgs))
+        res.sample = dict(which=which0, initial=init, commands=[(c.get('which', first) + ' ' + self.text_of(c)) for c in case['cmds']], messages=len(msgs))
         return res
 
 
